@@ -134,7 +134,7 @@ def build():
     kt = in_tuples(func(kc, "classify"), "kubectl")
     out.append(coq_strs("KUBECTL_FLAGS_WITH_ARG", pick(kt, ["-n", "--namespace"], "kubectl flags"), "cli/kubectl.py classify: global flags with an argument"))
     out.append(coq_strs("KUBECTL_EXEC_BOOL_FLAGS", const_strs(module_assign(kc, "EXEC_BOOL_FLAGS"), "kubectl EXEC_BOOL_FLAGS"), "cli/kubectl.py EXEC_BOOL_FLAGS"))
-    need(kc, "_extract_exec_inner_command", ["cnfsv", "itq", "--", "-", "="])
+    need(kc, "_extract_exec_inner_command", ["itq", "--", "-", "="])
     out.append(coq_strs("KUBECTL_SAFE_ACTIONS", const_strs(module_assign(kc, "SAFE_ACTIONS"), "kubectl SAFE_ACTIONS"), "cli/kubectl.py SAFE_ACTIONS"))
     out.append(coq_strs("KUBECTL_SUBCMD_KEYS", dict_keys(module_assign(kc, "SAFE_SUBCOMMANDS"), "kubectl SAFE_SUBCOMMANDS")
                         + dict_keys(module_assign(kc, "UNSAFE_SUBCOMMANDS"), "kubectl UNSAFE_SUBCOMMANDS"),
